@@ -179,7 +179,7 @@ class Tr:
 
     def mangle(self, s):
         m = {'$ConjList': 'conj', '\\land': 'conj', '$DisjList': 'disj', '\\lor': 'disj', '\\lnot': 'not', '=>': 'imp',
-             '=': 'eq', '/=': 'neq', '\\in': 'in', '\\notin': 'notin', '\\subseteq': 'subseteq', '\\union': 'union', '\\cup': 'union',
+             '=': 'eq', '/=': 'neq', '\\in': 'in', '\\notin': 'notin', '\\subseteq': 'subseteq', '\\union': 'union', '\\cup': 'union', '\\cap': 'inter', '\\intersect': 'inter',
              '\\': 'setminus', '$SetEnumerate': 'setenum', '$SubsetOf': 'subsetof', '$SetOfAll': 'setofall',
              '$BoundedExists': 'exists', '$BoundedForall': 'forall', '$BoundedChoose': 'choose', '$RcdConstructor': 'rcd',
              '$RcdSelect': 'sel', '$FcnApply': 'app', '$FcnConstructor': 'fcn', '$Except': 'except', '$IfThenElse': 'ite',
@@ -290,6 +290,9 @@ class Tr:
         return '(set_subset %s %s %s)' % (self.eqb(xt[1]), x, y), BOOL
     def op_union(self, n, a, env):
         x, xt = self.tr(a[0], env); y, yt = self.tr(a[1], env); return '(%s ++ %s)' % (x, y), xt
+    def op_inter(self, n, a, env):
+        x, xt = self.tr(a[0], env); y, yt = self.tr(a[1], env)
+        return '(set_inter %s %s %s)' % (self.eqb(xt[1]), x, y), xt
     def op_setminus(self, n, a, env):
         x, xt = self.tr(a[0], env); y, yt = self.tr(a[1], env)
         return '(set_diff %s %s %s)' % (self.eqb(xt[1]), x, y), xt
@@ -443,6 +446,25 @@ class Tr:
             ps = ''.join(' (p_%s : Z)' % p for p in params)
             st = (' (s : state)' if lvl >= 1 else '') + (" (s' : state)" if lvl >= 2 else '')
             w('Definition %s%s%s : %s :=\n  %s.' % (cn, ps, st, self.coqty(bt), body))
+        # the ASSUME clauses of the module: the hypotheses under which the invariants are claimed
+        conj = []
+        for c in self.modnode:
+            if c.tag == 'AssumeNodeRef':
+                a = self.ents[c.find('UID').text]
+                b = a.find('body')[0]
+                parts = self.operands(b) if (b.tag == 'OpApplNode' and self.opname(b)[0] in ('$ConjList', '\\land')) else [b]
+                for q in parts:
+                    try:
+                        nm = self.opname(q)[0] if q.tag == 'OpApplNode' else ''
+                        ops = self.operands(q) if q.tag == 'OpApplNode' else []
+                        if nm in ('\\in', '\\subseteq') and ops[1].tag == 'OpApplNode' and self.opname(ops[1])[0] in ('Nat', 'Int'):
+                            x, xt = self.tr(ops[0], {})
+                            conj.append(self.in_typeset(x, xt, ops[1]) if nm == '\\in' else '(forallb (fun y => %s) %s)' % (self.in_typeset('y', xt[1], ops[1]), x))
+                        else:
+                            conj.append(self.bools([q], {})[0])
+                    except Unsupported as e:
+                        skipped.append('ASSUME conjunct (%s)' % e)
+        w('Definition d_ASSUME : bool :=\n  (%s).' % ' && '.join(conj or ['true']))
         w('End Spec.')
         w('(* skipped: %s *)' % '; '.join(skipped))
         return '\n'.join(out)
